@@ -11,6 +11,8 @@ import random
 FUNCS1 = ('sin', 'cos', 'tanh', 'exp', 'sigmoid', 'absv', 'sqrt', 'log', 'tan', 'atan', 'sinh', 'cosh', 'abs')
 FUNCS2 = ('maxi', 'mini')
 
+PAST_STYLE = ['past']     # 'past' -> past(x, tau) ; 't-' -> x(t-tau)
+
 PREC = {'add': 1, 'sub': 1, 'mul': 2, 'div': 2, 'neg': 3, 'pow': 4}
 
 
@@ -94,6 +96,8 @@ def to_str(e, pow_sym='**', sp=' ', paren=False, numstyle=0, rnd=None, top=True)
     if k == 'var':
         return e[1]
     if k == 'call':
+        if e[1] == 'past' and PAST_STYLE[0] == 't-':
+            return f"{e[2][1]}(t-{to_str(e[3], pow_sym, sp, paren, numstyle, rnd, True)})"
         args = (',' + (sp if sp else '')).join(to_str(a, pow_sym, sp, paren, numstyle, rnd, True) for a in e[2:])
         return f"{e[1]}({args})"
     if k == 'neg':
@@ -200,6 +204,8 @@ def ev(e, env):
     if k == 'pow':
         return ev(e[1], env) ** int(e[2])
     if k == 'call':
+        if e[1] == 'past':
+            return env(('past', e[2][1], ev(e[3], env)))      # delayed value of variable e[2] at t - tau
         return F64[e[1]](*[ev(a, env) for a in e[2:]])
     raise ValueError(k)
 
@@ -227,6 +233,8 @@ def ev_mp(e, env, mp):
     if k == 'pow':
         return ev_mp(e[1], env, mp) ** int(e[2])
     if k == 'call':
+        if e[1] == 'past':
+            return mp.mpf(env(('past', e[2][1], float(ev_mp(e[3], env, mp)))))
         a = [ev_mp(x, env, mp) for x in e[2:]]
         f = e[1]
         if f == 'sigmoid':
